@@ -31,7 +31,8 @@ import (
 //                (also after rebuilding the ring with the members in any order), and removing a member
 //                only moves the keys it owned.
 // chash-router   REAL consistent-hash router end to end: equal keys -> same routee while membership is
-//                unchanged; after removing one routee only its keys move.
+//                unchanged; after removing one routee only its keys move, and in 8 further passes every
+//                key (the orphaned ones included) keeps the surviving routee it got right after the removal.
 
 // ---------------------------------------------------------------------------------------------
 // test routee: zero-value constructible (the router instantiates it by reflection); deliveries go to
@@ -628,6 +629,13 @@ func c21HashRing(r *vsched.Report) {
 // consistent-hash router (end to end)
 // ---------------------------------------------------------------------------------------------
 
+// c21PassesAfterRemoval: how often every key is routed after a routee was removed. If the router chose
+// a uniformly random survivor per message for the keys of the removed routee, one orphaned key would
+// look sticky over p passes with probability (1/(n-1))^(p-1) (n-1 >= 2 survivors); with >= 3 orphaned
+// keys per case and p = 8 a whole case passes by luck with probability <= 2^-21, and all cases with
+// n >= 3 (>= 14 in the quick tier) with probability < 10^-80.
+const c21PassesAfterRemoval = 8
+
 func c21HashRouter(t *testing.T, r *vsched.Report) {
 	sizes := vsched.Pick([]int{2, 3, 4}, []int{2, 3, 4, 5, 6, 7, 8})
 	nKeys := vsched.Pick(16, 128)
@@ -639,7 +647,8 @@ func c21HashRouter(t *testing.T, r *vsched.Report) {
 		return ""
 	}
 	e := vsched.NewEnum("chash-router", map[string]any{"sizes": fmt.Sprint(sizes), "keys": nKeys, "virtual_nodes": "150 (default), 3",
-		"domain": "per pool size x virtual-node count x removed routee (each routee, or none): every key sent twice, the routee removed through the router's PanicSignal/stop path, every key sent again"})
+		"passes_after_removal": c21PassesAfterRemoval,
+		"domain": "per pool size x virtual-node count x removed routee (each routee, or none): every key sent twice, the routee removed through the router's PanicSignal/stop path, then every key sent again 8 times (equal keys must keep the same surviving routee on every pass)"})
 	for _, n := range sizes {
 		for _, vn := range []int{0, 3} {
 			for victim := -1; victim < n; victim++ {
@@ -718,6 +727,23 @@ func c21HashRouter(t *testing.T, r *vsched.Report) {
 						}
 					}
 					fmt.Fprintf(&obs, "|%v", o3)
+					// membership is unchanged from here on: every key, in particular every key the removed
+					// routee used to own, must keep reaching the SAME surviving routee on every further pass
+					// (a stale ring entry makes the router fall back to a random routee per message)
+					for pass := 2; pass <= c21PassesAfterRemoval; pass++ {
+						oi := send(fmt.Sprintf("after removal, pass %d", pass))
+						for ki := range keys {
+							switch {
+							case o3[ki] < 0 || oi[ki] < 0:
+							case oi[ki] == victim:
+								e.Fail("chash-removed-member-still-owner", input, "%s: pass %d: key %q still delivered to removed routee %d", input, pass, keys[ki], victim)
+							case oi[ki] != o3[ki] && o1[ki] == victim:
+								e.Fail("chash-orphaned-key-not-sticky-after-removal", input, "%s: key %q (owned by removed routee %d) went to routee %d on pass 1 and to routee %d on pass %d after the removal (membership unchanged)", input, keys[ki], victim, o3[ki], oi[ki], pass)
+							case oi[ki] != o3[ki]:
+								e.Fail("chash-equal-keys-different-routees", input, "%s: after the removal key %q went to routee %d on pass 1 and to routee %d on pass %d (membership unchanged)", input, keys[ki], o3[ki], oi[ki], pass)
+							}
+						}
+					}
 				})
 				if !valid {
 					continue
